@@ -6,6 +6,7 @@
 package main
 
 import (
+	"encoding/binary"
 	"errors"
 	"fmt"
 	"runtime/debug"
@@ -62,7 +63,15 @@ const (
 	faultNone  = 0
 	faultFromK = 1 // the k-th fallible call and all later ones fail
 	faultOnlyK = 2 // only the k-th fallible call fails
+	// no call fails; the calls made while the check of the target test executes
+	// return perturbed data (alone.go: is the verdict of a check a function of
+	// what its own accesses return?)
+	faultPerturb = 3
 )
+
+// errBudget aborts a perturbed run whose number of hardware calls explodes
+// (a perturbed length field can ask for gigabytes).
+var errBudget = errors.New("verif: hardware call budget of a perturbed run exhausted")
 
 var errInjected = errors.New("injected hardware fault")
 
@@ -78,10 +87,25 @@ type faultHW struct {
 	nfail  int
 	calls  []string
 	failed []bool // failed[i]: the (i+1)-th fallible call failed
+
+	target  int  // index of the test whose own check is singled out (-1: none)
+	active  bool // the check of the target test is executing (set by the wrapper in newSuiteEnv)
+	ownN    int  // fallible calls made while active
+	variant int  // faultPerturb: which transformation (see mangle)
+	sel     int  // faultPerturb: 0 = every own call is perturbed, j > 0 = only the j-th
+	seed    int64
+	budget  int               // > 0: panic(errBudget) when more calls than this are made
+	reads   map[int][2]uint64 // call number -> (address, length) of the ReadPhysBuf calls
 }
 
 func (f *faultHW) fail(name string) bool {
 	f.n++
+	if f.active {
+		f.ownN++
+	}
+	if f.budget > 0 && f.n > f.budget {
+		panic(errBudget)
+	}
 	bad := false
 	switch f.mode {
 	case faultFromK:
@@ -99,6 +123,59 @@ func (f *faultHW) fail(name string) bool {
 	return bad
 }
 
+// pert: the current call is one whose result is to be perturbed.
+func (f *faultHW) pert() bool {
+	return f.mode == faultPerturb && f.active && (f.sel == 0 || f.ownN == f.sel)
+}
+
+const nVariants = 6
+
+// mangle transforms the data a successful access returned, mildest first:
+// low bit of every byte flipped, all zero, all ones, complement, two fills
+// derived from the run's PRNG.
+func (f *faultHW) mangle(b []byte) {
+	switch f.variant {
+	case 0:
+		for i := range b {
+			b[i] ^= 1
+		}
+	case 1:
+		for i := range b {
+			b[i] = 0
+		}
+	case 2:
+		for i := range b {
+			b[i] = 0xff
+		}
+	case 3:
+		for i := range b {
+			b[i] = ^b[i]
+		}
+	default:
+		x := uint64(f.seed) ^ uint64(f.variant)*0x9E3779B97F4A7C15 ^ uint64(f.ownN)<<32
+		for i := range b {
+			x ^= x << 13
+			x ^= x >> 7
+			x ^= x << 17
+			b[i] = byte(x >> 24)
+		}
+	}
+}
+
+func (f *faultHW) mangle64(v uint64) uint64 {
+	b := le64(v)
+	f.mangle(b)
+	return binary.LittleEndian.Uint64(b)
+}
+
+func (f *faultHW) mangled(b []byte, err error) ([]byte, error) {
+	if err == nil && f.pert() {
+		b = append([]byte{}, b...)
+		f.mangle(b)
+	}
+	return b, err
+}
+
 func (f *faultHW) VersionString() string      { return f.base.VersionString() }
 func (f *faultHW) HasSMX() bool               { return f.base.HasSMX() }
 func (f *faultHW) HasVMX() bool               { return f.base.HasVMX() }
@@ -114,31 +191,52 @@ func (f *faultHW) IterateOverE820Ranges(target string, cb func(start uint64, end
 	if f.fail("IterateOverE820Ranges") {
 		return false, errInjected
 	}
+	if f.pert() {
+		inner := cb
+		cb = func(start uint64, end uint64) bool { return inner(f.mangle64(start), f.mangle64(end)) }
+	}
 	return f.base.IterateOverE820Ranges(target, cb)
 }
 func (f *faultHW) LookupIOAddress(addr uint64, regs hwapi.VTdRegisters) ([]uint64, error) {
 	if f.fail("LookupIOAddress") {
 		return []uint64{}, errInjected
 	}
-	return f.base.LookupIOAddress(addr, regs)
+	v, err := f.base.LookupIOAddress(addr, regs)
+	if err == nil && f.pert() {
+		v = append([]uint64{}, v...)
+		for i := range v {
+			v[i] = f.mangle64(v[i])
+		}
+	}
+	return v, err
 }
 func (f *faultHW) ReadMSR(msr int64) []uint64 {
-	if f.fail("ReadMSR") {
+	if f.fail(fmt.Sprintf("ReadMSR(%#x)", msr)) {
 		return nil
 	}
-	return f.base.ReadMSR(msr)
+	v := f.base.ReadMSR(msr)
+	if f.pert() {
+		v = append([]uint64{}, v...)
+		for i := range v {
+			v[i] = f.mangle64(v[i])
+		}
+	}
+	return v
 }
 func (f *faultHW) PCIEnumerateVisibleDevices(cb func(d hwapi.PCIDevice) (abort bool)) error {
 	if f.fail("PCIEnumerateVisibleDevices") {
 		return errInjected
 	}
+	if f.pert() && f.variant%2 == 1 {
+		return nil // no device is visible
+	}
 	return f.base.PCIEnumerateVisibleDevices(cb)
 }
 func (f *faultHW) PCIReadConfigSpace(d hwapi.PCIDevice, off int, l int) ([]byte, error) {
-	if f.fail("PCIReadConfigSpace") {
+	if f.fail(fmt.Sprintf("PCIReadConfigSpace(%d:%d.%d, %#x)", d.Bus, d.Device, d.Function, off)) {
 		return nil, errInjected
 	}
-	return f.base.PCIReadConfigSpace(d, off, l)
+	return f.mangled(f.base.PCIReadConfigSpace(d, off, l))
 }
 func (f *faultHW) PCIWriteConfigSpace(d hwapi.PCIDevice, off int, val interface{}) error {
 	if f.fail("PCIWriteConfigSpace") {
@@ -147,16 +245,36 @@ func (f *faultHW) PCIWriteConfigSpace(d hwapi.PCIDevice, off int, val interface{
 	return f.base.PCIWriteConfigSpace(d, off, val)
 }
 func (f *faultHW) ReadPhys(addr int64, data hwapi.UintN) error {
-	if f.fail("ReadPhys") {
+	if f.fail(fmt.Sprintf("ReadPhys(%#x)", addr)) {
 		return errInjected
 	}
-	return f.base.ReadPhys(addr, data)
+	err := f.base.ReadPhys(addr, data)
+	if err == nil && f.pert() {
+		switch d := data.(type) {
+		case *hwapi.Uint8:
+			*d = hwapi.Uint8(f.mangle64(uint64(*d)))
+		case *hwapi.Uint16:
+			*d = hwapi.Uint16(f.mangle64(uint64(*d)))
+		case *hwapi.Uint32:
+			*d = hwapi.Uint32(f.mangle64(uint64(*d)))
+		case *hwapi.Uint64:
+			*d = hwapi.Uint64(f.mangle64(uint64(*d)))
+		}
+	}
+	return err
 }
 func (f *faultHW) ReadPhysBuf(addr int64, buf []byte) error {
-	if f.fail("ReadPhysBuf") {
+	if f.reads != nil && f.n < 4096 {
+		f.reads[f.n+1] = [2]uint64{uint64(addr), uint64(len(buf))}
+	}
+	if f.fail(fmt.Sprintf("ReadPhysBuf(%#x, %d bytes)", addr, len(buf))) {
 		return errInjected
 	}
-	return f.base.ReadPhysBuf(addr, buf)
+	err := f.base.ReadPhysBuf(addr, buf)
+	if err == nil && f.pert() {
+		f.mangle(buf)
+	}
+	return err
 }
 func (f *faultHW) WritePhys(addr int64, data hwapi.UintN) error {
 	if f.fail("WritePhys") {
@@ -174,31 +292,35 @@ func (f *faultHW) NVLocked(t *hwapi.TPM) (bool, error) {
 	if f.fail("NVLocked") {
 		return false, errInjected
 	}
-	return f.base.NVLocked(t)
+	v, err := f.base.NVLocked(t)
+	if err == nil && f.pert() {
+		v = f.mangle64(map[bool]uint64{false: 0, true: 1}[v])&1 == 1
+	}
+	return v, err
 }
 func (f *faultHW) ReadNVPublic(t *hwapi.TPM, index uint32) ([]byte, error) {
 	if f.fail("ReadNVPublic") {
 		return nil, errInjected
 	}
-	return f.base.ReadNVPublic(t, index)
+	return f.mangled(f.base.ReadNVPublic(t, index))
 }
 func (f *faultHW) NVReadValue(t *hwapi.TPM, index uint32, password string, size, offhandle uint32) ([]byte, error) {
 	if f.fail("NVReadValue") {
 		return nil, errInjected
 	}
-	return f.base.NVReadValue(t, index, password, size, offhandle)
+	return f.mangled(f.base.NVReadValue(t, index, password, size, offhandle))
 }
 func (f *faultHW) ReadPCR(t *hwapi.TPM, pcr uint32) ([]byte, error) {
 	if f.fail("ReadPCR") {
 		return nil, errInjected
 	}
-	return f.base.ReadPCR(t, pcr)
+	return f.mangled(f.base.ReadPCR(t, pcr))
 }
 func (f *faultHW) GetACPITable(n string) ([]byte, error) {
 	if f.fail("GetACPITable") {
 		return nil, errInjected
 	}
-	return f.base.GetACPITable(n)
+	return f.mangled(f.base.GetACPITable(n))
 }
 func (f *faultHW) IterateOverSMBIOSTables(n uint8, cb func(s *smbios.Structure) bool) (bool, error) {
 	if f.fail("IterateOverSMBIOSTables") {
@@ -214,8 +336,15 @@ type suiteEnv struct {
 	index  map[*test.Test]int
 	plat   *platform
 	preset *test.PreSet
-	trace  []event // evaluations of the current run
+	trace  []event          // evaluations of the current run
+	hw     *faultHW         // the injector of the current run
+	own    map[int][]window // per test: the hardware calls made inside each evaluation of its own check
 }
+
+// window: the fallible hardware calls number from+1 .. to of a run were made
+// while one check function was executing (dependencies run before the check is
+// entered, so the window holds exactly the accesses the check itself made).
+type window struct{ from, to int }
 
 func newSuiteEnv() *suiteEnv {
 	e := &suiteEnv{all: test.AllTestsForVerif(), index: map[*test.Test]int{}, plat: newPlatform()}
@@ -227,6 +356,18 @@ func newSuiteEnv() *suiteEnv {
 		test.WrapCheckForVerif(t, func(inner test.CheckFuncForVerif) test.CheckFuncForVerif {
 			return func(hw hwapi.LowLevelHardwareInterfaces, p *test.PreSet) (bool, error, error) {
 				asdep := runDepth() > 1
+				if f := e.hw; f != nil {
+					from := f.n
+					if f.target == i {
+						f.active, f.ownN = true, 0
+					}
+					defer func() {
+						if f.target == i {
+							f.active = false
+						}
+						e.own[i] = append(e.own[i], window{from, f.n})
+					}()
+				}
 				rc, te, ie := inner(hw, p)
 				e.trace = append(e.trace, event{i, asdep, [3]bool{rc, te != nil, ie != nil}})
 				return rc, te, ie
@@ -253,6 +394,9 @@ type faultRun struct {
 	pstack   string
 	hung     bool
 	calls    []string
+	failed   []bool
+	reads    map[int][2]uint64
+	own      map[int][]window
 	n        int
 	rets     []bool
 	sOK      bool
@@ -261,14 +405,34 @@ type faultRun struct {
 	trace    []event
 	final    []test.Result
 	texts    []string
+	init     []test.Result // stored results before the run
+	itexts   []string      // ErrorText before the run
+	aborted  bool          // perturbed run stopped by the call budget
 }
 
 // run executes the listed tests (Test.Run one by one, or RunTestsSilent) from a
 // cold state under the given fault pattern.
 func (e *suiteEnv) run(list []*test.Test, silent bool, mode, k int) faultRun {
 	e.reset()
-	hw := &faultHW{base: e.plat, mode: mode, k: k}
+	return e.exec(list, silent, mode, k)
+}
+
+// exec is run without the reset: stored results and the package caches stay as
+// the previous runs left them.
+func (e *suiteEnv) exec(list []*test.Test, silent bool, mode, k int) faultRun {
+	return e.execHW(list, silent, &faultHW{base: e.plat, mode: mode, k: k, target: -1, reads: map[int][2]uint64{}})
+}
+
+func (e *suiteEnv) execHW(list []*test.Test, silent bool, hw *faultHW) faultRun {
+	e.trace = nil
+	e.hw, e.own = hw, map[int][]window{}
+	defer func() { e.hw = nil }()
 	var r faultRun
+	r.init = make([]test.Result, len(e.all))
+	r.itexts = make([]string, len(e.all))
+	for i, t := range e.all {
+		r.init[i], r.itexts[i] = t.Result, t.ErrorText
+	}
 	done := make(chan struct{})
 	go func() {
 		defer close(done)
@@ -294,8 +458,8 @@ func (e *suiteEnv) run(list []*test.Test, silent bool, mode, k int) faultRun {
 		r.hung = true
 		return r
 	}
-	r.calls, r.n = hw.calls, hw.n
-	r.trace = e.trace
+	r.calls, r.failed, r.reads, r.n = hw.calls, hw.failed, hw.reads, hw.n
+	r.trace, r.own = e.trace, e.own
 	r.final = make([]test.Result, len(e.all))
 	r.texts = make([]string, len(e.all))
 	for i, t := range e.all {
@@ -360,7 +524,7 @@ func (e *suiteEnv) graphCase(list []*test.Test, silent bool, r faultRun) (gcase,
 	}
 	for li, gi := range members {
 		t := e.all[gi]
-		d := tdesc{Required: t.Required, Status: int(t.Status), Deps: []int{}, Outs: outs[li]}
+		d := tdesc{Required: t.Required, Status: int(t.Status), Deps: []int{}, Outs: outs[li], Init: int(r.init[gi])}
 		for _, dep := range test.DepsForVerif(t) {
 			d.Deps = append(d.Deps, local[e.index[dep]])
 		}
@@ -370,8 +534,11 @@ func (e *suiteEnv) graphCase(list []*test.Test, silent bool, r faultRun) (gcase,
 		g.Tests = append(g.Tests, d)
 		o.final = append(o.final, r.final[gi])
 		b := -1
+		// a test with a stored result that this run did not touch keeps the ErrorText of the
+		// earlier run; the case language starts every run without blames
+		untouched := r.init[gi] != test.ResultNotRun && r.init[gi] == r.final[gi] && r.itexts[gi] == r.texts[gi] && len(outs[li]) == 0
 		for _, dep := range test.DepsForVerif(t) {
-			if r.texts[gi] == dep.Name+" failed" {
+			if r.texts[gi] == dep.Name+" failed" && !untouched {
 				b = local[e.index[dep]]
 			}
 		}
@@ -476,6 +643,9 @@ func partB(c *gal.Ctx) {
 	var panicSites []string
 	maxK := c.Scale(200, 1<<30) // quick tier: every k up to 200 (more than any check needs today), then a spread; thorough: every k
 	reportKnown := func(idx int, id, what, site string, d interface{}) { reportKnownFailure(c, idx, id, what, site, d) }
+	own := newOwnRule(c, e, stats)
+	ownCold := map[string]int{}
+	readsACMSize := map[string]bool{}
 	judge := func(t *test.Test, mode, k, n int, r faultRun, withCase bool) {
 		d := faultDescr{Test: t.Name, Pattern: patName(mode), K: k, N: n}
 		if k >= 1 && k <= len(r.calls) {
@@ -522,6 +692,24 @@ func partB(c *gal.Ctx) {
 		}
 		if m := e.runnerOracle(t, r); m != "" {
 			c.OracleFail(idx, "on the real suite graph, "+t.Name+": "+m, siteRun, d)
+			return
+		}
+		if mode == faultNone {
+			// which accesses are the check's own on the healthy platform; is the size field of
+			// the startup ACM (offset 24 of its header) among them?
+			if ws := r.own[e.index[t]]; len(ws) > 0 {
+				w := ws[len(ws)-1]
+				ownCold[t.Name] = w.to - w.from
+				for cn := w.from + 1; cn <= w.to; cn++ {
+					if rd, ok := r.reads[cn]; ok && rd[1] <= 16 && rd[0] < acmAddr+28 && rd[0]+rd[1] > acmAddr+24 {
+						readsACMSize[t.Name] = true
+					}
+				}
+			}
+		}
+		// the total-failure clause against the accesses the check itself made (alone.go); last,
+		// because the dependence experiment re-uses the platform
+		if own.judge(own.cold, t, mode, k, r, idx) {
 			return
 		}
 		c.OracleOK()
@@ -643,6 +831,16 @@ func partB(c *gal.Ctx) {
 			}
 		}
 	}
+	// ---- the total-failure clause per check (alone.go) ----
+	partBAlone(c, e, stats, own)
+	// harness self-check: the synthetic FIT must contain a startup ACM entry whose size is
+	// really fetched from (mock) physical memory by some check, otherwise the read path of
+	// getFITDataSize / txtAPIFirmwareReadSeeker is not exercised at all
+	if len(readsACMSize) == 0 {
+		c.OracleFail(-1, "harness: no check reads the size field of the startup ACM of the synthetic platform (FIT without startup ACM entry?)", "harness/cmd/c06/platform.go", nil)
+	} else {
+		c.OracleOK()
+	}
 	// ---- probes of the known findings on fixed witnesses ----
 	probeFindings(c, e, rerunReal)
 
@@ -652,6 +850,14 @@ func partB(c *gal.Ctx) {
 	c.Rep.Extra["partB_pass_under_partial_fault"] = passPartial
 	c.Rep.Extra["partB_panic_sites"] = uniq(panicSites)
 	c.Rep.Extra["partB_known_failures"] = knownSeen
+	c.Rep.Extra["partB_own_accesses_cold_healthy"] = ownCold
+	c.Rep.Extra["partB_checks_reading_startup_acm_size"] = sortedKeys(readsACMSize)
+	irr := map[string][]string{}
+	for sname, m := range own.irrelevant {
+		irr[sname] = sortedKeys(m)
+	}
+	c.Rep.Extra["partB_pass_with_every_own_access_failed_but_data_independent"] = irr
+	c.Rep.Extra["partB_dependence_experiments"] = own.deps
 	c.Rep.Notes = append(c.Rep.Notes,
 		"Part B is an enumeration on the real checks (fault matrix), not a theorem; fallible accesses = every hwapi method that can return an error plus ReadMSR (failure = empty result); CPUID accessors are not faulted",
 		"Part B environment: GetACPITableSysFS and the IOMMU lookup of go-linux-lowlevel-hw read the host's /sys directly (not through the hardware interface); on this host they fail, which the checks treat as absence")
@@ -666,7 +872,7 @@ func partB(c *gal.Ctx) {
 // the verdict uses the size from the FIT header only.)
 var redundantSources = map[string]bool{
 	"IBB covers reset vector": true, "IBB covers FIT vector": true, "IBB covers FIT": true,
-	"IBBs doesn't overlap each other": true, "IBBs doesn't overlap with BIOS ACM": true, "IBB and BIOS ACM below 4GiB": true,
+	"IBBs doesn't overlap each other": true, "BIOS ACM does not overlap IBBs": true, "IBB and BIOS ACM below 4GiB": true,
 	"ACPI RSDT or XSDT is valid": true, "ACPI XSDT is valid": true,
 	"ACPI DMAR is present": true, "ACPI DMAR is valid": true,
 	"ACPI MADT is present": true, "ACPI MADT is valid": true, "ACPI MCFG is present": true,
